@@ -15,7 +15,7 @@ use std::{
     time::{Duration, Instant},
 };
 
-fn enc(r: ExecutionResult) -> Value {
+pub(crate) fn enc(r: ExecutionResult) -> Value {
     match r {
         ExecutionResult::Pass => json!([0]),
         ExecutionResult::Leak => json!([1]),
